@@ -29,6 +29,9 @@
 #include <iv_thread.h>
 #include <iv_wait.h>
 #include <iv_work.h>
+#include <iv_inotify.h>
+#include <sys/stat.h>
+#include <fcntl.h>
 
 static _Atomic unsigned long long cnt_posts, cnt_rawposts, cnt_items, cnt_signals, cnt_children, cnt_loops, cnt_threads, cnt_handler;
 #define CNT(x, n) atomic_fetch_add_explicit(&(x), (n), memory_order_relaxed)
@@ -601,6 +604,229 @@ static void scn_threads(int n)
 	iv_deinit();
 }
 
+
+/* ================================================================== work pool whose workers all retire at their idle time-out (10 s of real time) */
+static int wi_done, wi_phase;
+static struct iv_timer wi_t;
+static struct witem wi_items[8];
+static void wi_work(void *c) { (void)c; usleep(2000); }
+static void wi_completion(void *c)
+{
+	(void)c;
+	wi_done++;
+	if (wi_phase == 1 && wi_done == 5) {
+		iv_work_pool_put(WP);
+		free(WP);
+		WP = NULL;
+	}
+}
+static void wi_late(void *c)
+{
+	(void)c;
+	/* every worker has been idle for more than ten seconds: they retire together, while this submission may need a new one */
+	wi_phase = 1;
+	IV_WORK_ITEM_INIT(&wi_items[4].wi);
+	wi_items[4].wi.cookie = &wi_items[4]; wi_items[4].wi.work = wi_work; wi_items[4].wi.completion = wi_completion;
+	iv_work_pool_submit_work(WP, &wi_items[4].wi);
+	CNT(cnt_items, 1);
+}
+static void scn_workidle(void)
+{
+	int i;
+	alarm(100);
+	iv_init();
+	WP = malloc(sizeof(*WP));
+	IV_WORK_POOL_INIT(WP);
+	WP->max_threads = 4;
+	WP->cookie = NULL;
+	iv_work_pool_create(WP);
+	wi_done = 0; wi_phase = 0;
+	for (i = 0; i < 4; i++) {
+		IV_WORK_ITEM_INIT(&wi_items[i].wi);
+		wi_items[i].wi.cookie = &wi_items[i]; wi_items[i].wi.work = wi_work; wi_items[i].wi.completion = wi_completion;
+		iv_work_pool_submit_work(WP, &wi_items[i].wi);
+		CNT(cnt_items, 1);
+	}
+	IV_TIMER_INIT(&wi_t);
+	wi_t.handler = wi_late;
+	iv_validate_now();
+	wi_t.expires = iv_now;
+	wi_t.expires.tv_sec += 10;
+	wi_t.expires.tv_nsec += 1000000 * (long)(g_seed % 30);	/* right around the moment the idle timers fire */
+	if (wi_t.expires.tv_nsec >= 1000000000) { wi_t.expires.tv_sec++; wi_t.expires.tv_nsec -= 1000000000; }
+	iv_timer_register(&wi_t);
+	iv_main();
+	iv_deinit();
+}
+
+/* ================================================================== two threads fork at overlapping times, each with its own signal mask */
+static _Atomic int fm_stop;
+static _Atomic long fm_bad;
+static void fm_nop(void *c) { (void)c; _exit(0); }
+struct fm_thr { int left; struct iv_wait_interest *wi; sigset_t want; };
+static void fm_check(const sigset_t *want, const char *who)
+{
+	sigset_t cur;
+	int s;
+	pthread_sigmask(SIG_SETMASK, NULL, &cur);
+	for (s = 1; s < 32; s++)
+		if (sigismember(&cur, s) != sigismember(want, s)) {
+			if (atomic_fetch_add(&fm_bad, 1) == 0)
+				printf("FUNCVIOL key=signal-mask-changed-by-fork :: %s: after a fork the thread's signal mask differs from before in signal %d (blocked now: %d)\n", who, s, sigismember(&cur, s));
+			pthread_sigmask(SIG_SETMASK, want, NULL);
+			return;
+		}
+}
+static void fm_spawn(struct fm_thr *t);
+static void fm_cb(void *cookie, int status, const struct rusage *ru)
+{
+	struct fm_thr *t = cookie;
+	(void)ru;
+	if (!(WIFEXITED(status) || WIFSIGNALED(status)))
+		return;
+	iv_wait_interest_unregister(t->wi);
+	free(t->wi);
+	t->wi = NULL;
+	if (--t->left > 0)
+		fm_spawn(t);
+	else
+		atomic_store(&fm_stop, 1);
+}
+static void fm_spawn(struct fm_thr *t)
+{
+	t->wi = malloc(sizeof(*t->wi));
+	IV_WAIT_INTEREST_INIT(t->wi);
+	t->wi->cookie = t;
+	t->wi->handler = fm_cb;
+	iv_wait_interest_register_spawn(t->wi, fm_nop, NULL);
+	fm_check(&t->want, "the thread that spawns through the library");
+	CNT(cnt_children, 1);
+}
+static void *fm_forker(void *v)
+{
+	sigset_t want;
+	(void)v;
+	sigemptyset(&want);
+	sigaddset(&want, SIGUSR2);
+	pthread_sigmask(SIG_SETMASK, &want, NULL);
+	while (!atomic_load(&fm_stop)) {
+		pid_t p = fork();
+		if (p == 0)
+			_exit(0);
+		fm_check(&want, "the thread that calls fork()");
+		if (p > 0) {
+			int st;
+			while (waitpid(p, &st, 0) < 0 && errno == EINTR)
+				;
+		}
+	}
+	return NULL;
+}
+static void scn_forkmask(int n)
+{
+	struct fm_thr t;
+	pthread_t th;
+	sigset_t old;
+	memset(&t, 0, sizeof(t));
+	t.left = n;
+	atomic_store(&fm_stop, 0);
+	iv_init();
+	sigemptyset(&t.want);
+	sigaddset(&t.want, SIGUSR1);
+	pthread_sigmask(SIG_SETMASK, &t.want, &old);
+	pthread_create(&th, NULL, fm_forker, NULL);
+	fm_spawn(&t);
+	iv_main();
+	atomic_store(&fm_stop, 1);
+	pthread_join(th, NULL);
+	pthread_sigmask(SIG_SETMASK, &old, NULL);
+	iv_deinit();
+}
+
+/* ================================================================== two threads, each with its own inotify instance */
+struct in_thr { int idx; char dir[128]; struct iv_inotify in; struct iv_inotify_watch w; struct iv_timer t; int rounds, seen, made; };
+static void in_ev(void *cookie, struct inotify_event *ev)
+{
+	struct in_thr *t = cookie;
+	t->seen++;
+	/* every name in this directory starts with the thread's own letter */
+	if (ev->len > 0 && ev->name[0] != (char)('a' + t->idx) && atomic_fetch_add(&fm_bad, 1) == 0)
+		printf("FUNCVIOL key=inotify-event-misrouted :: the watch of thread %d got an event for '%s', a file of another thread's directory\n", t->idx, ev->name);
+}
+static void in_tick(void *c)
+{
+	struct in_thr *t = c;
+	char p[192];
+	int k;
+	for (k = 0; k < 24; k++) {
+		int fd;
+		snprintf(p, sizeof(p), "%s/%c%d_%d", t->dir, 'a' + t->idx, t->rounds, k);
+		fd = open(p, O_CREAT | O_WRONLY, 0600);
+		if (fd >= 0) close(fd);
+		unlink(p);
+		t->made += 2;
+	}
+	if (--t->rounds > 0) {
+		iv_validate_now();
+		t->t.expires = iv_now;
+		t->t.expires.tv_nsec += 200000;
+		if (t->t.expires.tv_nsec >= 1000000000) { t->t.expires.tv_sec++; t->t.expires.tv_nsec -= 1000000000; }
+		iv_timer_register(&t->t);
+	} else {
+		iv_inotify_watch_unregister(&t->w);
+		iv_inotify_unregister(&t->in);
+	}
+}
+static void *in_thread(void *v)
+{
+	struct in_thr *t = v;
+	iv_init();
+	IV_INOTIFY_INIT(&t->in);
+	if (iv_inotify_register(&t->in) == 0) {
+		IV_INOTIFY_WATCH_INIT(&t->w);
+		t->w.inotify = &t->in;
+		t->w.pathname = t->dir;
+		t->w.mask = IN_CREATE | IN_DELETE;
+		t->w.cookie = t;
+		t->w.handler = in_ev;
+		if (iv_inotify_watch_register(&t->w) == 0) {
+			IV_TIMER_INIT(&t->t);
+			t->t.cookie = t;
+			t->t.handler = in_tick;
+			iv_validate_now();
+			t->t.expires = iv_now;
+			iv_timer_register(&t->t);
+			iv_main();
+		} else {
+			iv_inotify_unregister(&t->in);
+		}
+	}
+	iv_deinit();
+	return NULL;
+}
+static void scn_inotify(int rounds)
+{
+	struct in_thr t[3];
+	pthread_t th[3];
+	const char *tmp = getenv("TMPDIR");
+	int i;
+	iv_init();
+	iv_deinit();
+	memset(t, 0, sizeof(t));
+	for (i = 0; i < 3; i++) {
+		t[i].idx = i;
+		t[i].rounds = rounds;
+		snprintf(t[i].dir, sizeof(t[i].dir), "%s/ivrace.%d.%d", tmp && *tmp ? tmp : "/tmp", (int)getpid(), i);
+		mkdir(t[i].dir, 0700);
+		pthread_create(&th[i], NULL, in_thread, &t[i]);
+	}
+	for (i = 0; i < 3; i++) {
+		pthread_join(th[i], NULL);
+		rmdir(t[i].dir);
+		CNT(cnt_loops, 1);
+	}
+}
+
 static const char *argstr(int argc, char **argv, const char *n, const char *d)
 {
 	int i;
@@ -629,6 +855,10 @@ int main(int argc, char **argv)
 		RUN("children", scn_children(6));
 		RUN("loops", scn_loops(15));
 		RUN("threads", scn_threads(24));
+		RUN("inotify", scn_inotify(12));
+		/* not part of "all": long (real idle time-out) or fork-heavy */
+		if (!strcmp(scn, "workidle")) { printf("BEGIN workidle round=%d\n", r); fflush(stdout); scn_workidle(); }
+		if (!strcmp(scn, "forkmask")) { printf("BEGIN forkmask round=%d\n", r); fflush(stdout); scn_forkmask(2500); }
 	}
 	printf("STAT scn=%s rounds=%d event_posts=%llu raw_posts=%llu work_items=%llu signals_sent=%llu children=%llu loop_cycles=%llu iv_threads=%llu handler_runs=%llu\n",
 	       scn, rounds, (unsigned long long)cnt_posts, (unsigned long long)cnt_rawposts, (unsigned long long)cnt_items, (unsigned long long)cnt_signals,
